@@ -13,9 +13,9 @@ CONSTANTS CaseMaxN
 Spec == LoopSpec
 
 C19_Terminates == <>LoopDone
-C19_NoIdleLap == idle < Len(ring)
+C19_NoIdleLap == Walking => idle < Len(ring)
 (* progress measure used in notes: picks never exceed rf, reps stay distinct *)
-C19_TypeOK == Len(reps) <= rf /\ HNoDup(reps) /\ pos \in 1..Len(ring)
+C19_TypeOK == Len(reps) <= rf /\ HNoDup(reps) /\ (Walking => pos \in 1..Len(ring))
 
 ZoneVecs == { v \in [1..4 -> 0..CaseMaxN] :
                 /\ v[1] >= 1
